@@ -759,4 +759,143 @@ Section Proofs.
     intros Hr. pose proof (reachable_inv s Hr) as Hi. destruct (check_iterate_consistent s Hi) as (A & B & C & D).
     repeat (split; [assumption|]). apply Hi.
   Qed.
+  (* ------------------------------------------------------------------ (g) the line search terminates *)
+  Section Termination.
+    Variables (cL : R) (nL nT : nat) (q : list R) (τi : R).
+    Hypothesis HcL : 0 < cL.
+    Hypothesis HLmax : p_Lmax P <= cL * 2 ^ nL.                       (* finite L_max: reached after nL doublings *)
+    Hypothesis Hfac : 0 <= p_tau_factor P <= 1.
+    Hypothesis Hmin : p_tau_factor P ^ nT < p_tau_min P.               (* τ falls below τ_min after nT reductions *)
+    Hypothesis Hτi : τi = 0 \/ τi = 1.
+
+    Definition phiA (a b : nat) : nat := ((nL - a) * (nT + 2) + (nT + 1 - b) + (nL + 2))%nat.
+    Definition phiB (a : nat) : nat := (nL - a + 1)%nat.
+
+    Lemma pow_le_1 x m n : 0 <= x <= 1 -> (m <= n)%nat -> x ^ n <= x ^ m.
+    Proof.
+      intros Hx Hmn. induction Hmn as [|n Hmn IH]; [lra|]. cbn [pow].
+      assert (0 <= x ^ n) by (apply pow_le; lra). nra.
+    Qed.
+    Lemma iL_safe_next (curr next : it) c : iL (snd (fst (take_safe_step grad_L curr next c))) = iL next.
+    Proof. unfold take_safe_step. destruct (ihave curr); reflexivity. Qed.
+    Lemma iL_safe_curr (curr next : it) c : iL (fst (fst (take_safe_step grad_L curr next c))) = iL curr.
+    Proof. unfold take_safe_step. destruct (ihave curr); reflexivity. Qed.
+    Lemma iL_psih_prox (i : it) : iL (epsih (eprox i)) = iL i.
+    Proof. unfold eval_psih. destruct (p_eager P); reflexivity. Qed.
+    Lemma iL_halve (i : it) : iL (halve_it i) = iL i * 2.
+    Proof. unfold halve_it, halve_step, set_gamma_L. cbn [iL snd fst]. cbv [n2 nmul nadd n1 NumR]. lra. Qed.
+
+    Lemma ls_no_fuel : forall fuel s a b,
+      iL (ls_curr s) = cL -> iL (ls_next s) = cL * 2 ^ a -> (a <= nL)%nat ->
+      ((0 < ls_tau s /\ τi = 1 /\ ls_tau s = p_tau_factor P ^ b /\ (b <= nT)%nat /\ (phiA a b <= fuel)%nat) \/
+       (ls_tau s = 0 /\ (phiB a <= fuel)%nat)) ->
+      lsloop fuel q τi s <> LsFuel.
+    Proof.
+      induction fuel as [|fuel IH]; intros s a b Hc Hn Ha Hph.
+      { exfalso. unfold phiA, phiB in Hph. destruct Hph as [(_ & _ & _ & _ & H)|(_ & H)]; nia. }
+      cbn [ls_loop]. destruct (stop_req (ls_cnt s)); [discriminate|].
+      change (@nltb R NumR) with Rlt_bool. change (@neqb R NumR) with Req_bool. change (@nleb R NumR) with Rle_bool.
+      change (@n0 R NumR) with 0. change (@n1 R NumR) with 1. change (@nmul R NumR) with Rmult.
+      set (τ := ls_tau s) in *.
+      set (ph := if Req_bool τ (ls_tau_prev s) then (ls_curr s, ls_next s, inc_polls (ls_cnt s))
+                 else if Req_bool τ 0 then take_safe_step grad_L (ls_curr s) (ls_next s) (inc_polls (ls_cnt s))
+                 else (ls_curr s, take_accel_step psi_grad_full τ q (ls_curr s) (ls_next s), inc_pg (inc_polls (ls_cnt s)))).
+      assert (F : iL (fst (fst ph)) = cL /\ iL (snd (fst ph)) = cL * 2 ^ a).
+      { subst ph. destruct (Req_bool τ (ls_tau_prev s)); [split; assumption|].
+        destruct (Req_bool τ 0); [rewrite iL_safe_curr, iL_safe_next; split; assumption|split; [assumption|exact Hn]]. }
+      destruct ph as [[curr next] c1]. cbn [fst snd] in F. destruct F as [Fc Fn].
+      (* fail branch *)
+      match goal with |- context [if ?bb then lsloop fuel q τi ?s1 else _] => destruct bb eqn:Efail; [apply (IH s1 0%nat 0%nat)|] end.
+      { exact Fc. }
+      { cbn [ls_next]. unfold set_gamma_L; cbn [iL]. rewrite Fc. cbn [pow]. lra. }
+      { lia. }
+      { right. cbn [ls_tau]. split; [reflexivity|]. apply andb_prop in Efail. destruct Efail as [Hpos _]. apply Rlt_bool_iff in Hpos.
+        destruct Hph as [(_ & _ & _ & _ & H)|(H0 & _)]; [unfold phiA, phiB in *; nia|lra]. }
+      set (next1 := epsih (eprox next)).
+      assert (N1 : iL next1 = cL * 2 ^ a) by (subst next1; rewrite iL_psih_prox; exact Fn).
+      (* QUB branch: next.L < L_max, so fewer than nL doublings so far *)
+      match goal with |- context [if ?bb then lsloop fuel q τi ?s1 else _] => destruct bb eqn:Equb; [apply (IH s1 (S a) 0%nat)|] end.
+      { exact Fc. }
+      { cbn [ls_next]. rewrite iL_halve, N1. cbn [pow]. lra. }
+      { apply andb_prop in Equb. destruct Equb as [HL _]. apply Rlt_bool_iff in HL. rewrite N1 in HL.
+        destruct (Nat.lt_ge_cases a nL) as [Hlt|Hge]; [lia|]. exfalso.
+        assert (2 ^ nL <= 2 ^ a) by (apply Rle_pow; [lra|exact Hge]). nra. }
+      { apply andb_prop in Equb. destruct Equb as [HL _]. apply Rlt_bool_iff in HL. rewrite N1 in HL.
+        assert (Hlt : (a < nL)%nat).
+        { destruct (Nat.lt_ge_cases a nL) as [Hlt|Hge]; [exact Hlt|]. exfalso.
+          assert (2 ^ nL <= 2 ^ a) by (apply Rle_pow; [lra|exact Hge]). nra. }
+        cbn [ls_tau]. destruct Hph as [(Hp & Hi & Ht & Hb & Hf)|(H0 & Hf)].
+        - left. apply Rlt_bool_iff in Hp. rewrite Hp. rewrite Hi. split; [lra|]. split; [reflexivity|]. split; [cbn [pow]; lra|]. split; [lia|].
+          unfold phiA in *. nia.
+        - right. destruct (Rlt_bool_spec 0 τ) as [Hp|Hp]; [lra|]. split; [exact H0|]. unfold phiB in *. lia. }
+      (* line-search branch *)
+      match goal with |- context [if ?bb then lsloop fuel q τi ?s1 else LsDone ?s2] => destruct bb eqn:Els; [|discriminate] end.
+      apply andb_prop in Els. destruct Els as [Hpos _]. apply Rlt_bool_iff in Hpos.
+      destruct Hph as [(Hp & Hi & Ht & Hb & Hf)|(H0 & _)]; [|lra].
+      match goal with |- lsloop fuel q τi ?s1 <> LsFuel => apply (IH s1 a (S b)) end.
+      { exact Fc. }
+      { exact N1. }
+      { exact Ha. }
+      cbn [ls_tau]. fold τ in Ht. destruct (Rlt_bool_spec (τ * p_tau_factor P) (p_tau_min P)) as [Hlt|Hge].
+      - right. split; [reflexivity|]. unfold phiA, phiB in *. nia.
+      - left. assert (Hpw : τ * p_tau_factor P = p_tau_factor P ^ S b) by (rewrite Ht; cbn [pow]; lra).
+        assert (Hb' : (S b <= nT)%nat).
+        { destruct (Nat.lt_ge_cases b nT) as [Hl|Hg]; [lia|]. exfalso.
+          assert (p_tau_factor P ^ S b <= p_tau_factor P ^ nT) by (apply pow_le_1; [exact Hfac|lia]). lra. }
+        assert (0 <= p_tau_factor P ^ nT) by (apply pow_le; lra).
+        split; [lra|]. split; [exact Hi|]. split; [exact Hpw|]. split; [exact Hb'|]. unfold phiA in *. nia.
+    Qed.
+
+    (* explicit bound on the number of passes of `while (!stop_requested)` in one iteration *)
+    Definition ls_pass_bound : nat := ((nL + 1) * (nT + 3))%nat.
+    Theorem ls_terminates (curr next : it) upd c st : iL curr = cL -> forall fuel, (ls_pass_bound <= fuel)%nat ->
+      lsloop fuel q τi (mkLs curr (set_gamma_L next (igam curr) (iL curr)) τi (- 1) upd false c st) <> LsFuel.
+    Proof.
+      intros Hc fuel Hf. apply (ls_no_fuel fuel _ 0%nat 0%nat); cbn [ls_curr ls_next ls_tau].
+      - exact Hc.
+      - unfold set_gamma_L; cbn [iL pow]. lra.
+      - lia.
+      - unfold ls_pass_bound, phiA, phiB in *. destruct Hτi as [E|E].
+        + right. split; [exact E|]. nia.
+        + left. split; [lra|]. split; [exact E|]. split; [cbn [pow]; lra|]. split; [lia|]. nia.
+    Qed.
+  End Termination.
+
+  (* no pass of the outer loop runs out of line-search fuel: one uniform bound for the whole run *)
+  Lemma halve_n_L j γ L : snd (halve_n j (γ, L)) = L * 2 ^ j.
+  Proof.
+    induction j as [|j IH]; cbn [halve_n pow]; [cbn; lra|]. destruct (halve_n j (γ, L)) as [g l]. cbn [snd] in IH.
+    unfold halve_step; cbn [snd fst]. cbv [n2 nmul nadd n1 NumR]. rewrite IH. lra.
+  Qed.
+  Theorem pass_never_out_of_fuel (nL nT : nat) s : Inv s ->
+    0 < L_init -> p_Lmax P <= L_init * 2 ^ nL ->
+    0 <= p_tau_factor P <= 1 -> p_tau_factor P ^ nT < p_tau_min P ->
+    (ls_pass_bound nL nT <= ls_fuel)%nat -> pass_ s <> PFuel.
+  Proof.
+    intros HI HL0 HLm Hf Hm Hfuel. destruct (check_iterate_consistent s HI) as (_ & _ & [j Ej] & _).
+    unfold pass. cbv zeta. fold (check_iterate s).
+    set (curr := check_iterate s) in *.
+    assert (EL : iL curr = L_init * 2 ^ j).
+    { pose proof (halve_n_L j (p_Lgamma P / L_init) L_init) as Hh. fold gl0 in Hh. rewrite <- Ej in Hh. exact Hh. }
+    assert (Hp1 : 1 <= 2 ^ j) by (apply pow_R1_Rle; lra).
+    assert (Hp2 : 0 < 2 ^ nL) by (apply pow_lt; lra).
+    assert (HcL : 0 < iL curr) by (rewrite EL; nra).
+    assert (HLm' : p_Lmax P <= iL curr * 2 ^ nL).
+    { rewrite EL. assert (0 <= L_init * 2 ^ nL * (2 ^ j - 1)) by (apply Rmult_le_pos; [apply Rmult_le_pos; lra|lra]). lra. }
+    match goal with |- context [stop_status_helpers ?a ?b ?c ?d ?e ?f ?g ?h] => destruct (stop_status_helpers a b c d e f g h) end.
+    2-8: match goal with |- context [exit_block ?a ?b ?c ?d ?e ?f ?g ?h] => destruct (exit_block a b c d e f g h) as [[xo yo] eo] end; discriminate.
+    change (@n0 R NumR) with 0. change (@n1 R NumR) with 1. change (@nopp R NumR) with Ropp.
+    match goal with |- context [lsloop ls_fuel ?q ?τi (mkLs curr (set_gamma_L ?nx _ _) _ _ ?u _ ?c ?st)] =>
+      assert (Hτ : τi = 0 \/ τi = 1) by (match goal with |- (match ?r with Some _ => _ | None => _ end) = 0 \/ _ => destruct r as [q'|]; [destruct (vall_finite q')|]; auto end);
+      pose proof (ls_terminates (iL curr) nL nT q τi HcL HLm' Hf Hm Hτ curr nx u c st eq_refl ls_fuel Hfuel) as Ht;
+      match goal with |- context [match ?X with LsDone _ => _ | LsStopped _ => _ | LsFuel => PFuel end] =>
+        assert (Ht' : X <> LsFuel) by exact Ht; destruct X; [discriminate|discriminate|exfalso; apply Ht'; reflexivity] end
+    end.
+  Qed.
+
+  Theorem reachable_pass_never_out_of_fuel (nL nT : nat) s : reachable s ->
+    0 < L_init -> p_Lmax P <= L_init * 2 ^ nL ->
+    0 <= p_tau_factor P <= 1 -> p_tau_factor P ^ nT < p_tau_min P ->
+    (ls_pass_bound nL nT <= ls_fuel)%nat -> pass_ s <> PFuel.
+  Proof. intros Hr. apply pass_never_out_of_fuel. now apply reachable_inv. Qed.
 End Proofs.
